@@ -969,3 +969,296 @@ Proof.
     + destruct (i_closed _ _ _ _ _ _ I2 sid Eh) as [_ Hn]. rewrite Hn. exact I.
 Qed.
 End Runs.
+
+(* ================================================================== liveness *)
+Lemma sum_f_nonneg : forall f l, (forall x, In x l -> 0 <= f x) -> 0 <= sum_f f l.
+Proof.
+  intros f l. induction l as [|x l IH]; intros H; cbn [sum_f]; [lia|].
+  assert (0 <= f x) by (apply H; left; reflexivity).
+  assert (0 <= sum_f f l) by (apply IH; intros y Hy; apply H; right; exact Hy). lia.
+Qed.
+
+Lemma sent_on_nonneg : forall sid fs, (forall f, In f fs -> 0 < f_len f) -> 0 <= sent_on sid fs.
+Proof.
+  intros sid fs. unfold sent_on. induction fs as [|x fs IH]; intros H; cbn [frames_of len_sum]; [lia|].
+  assert (0 < f_len x) by (apply H; left; reflexivity).
+  assert (0 <= len_sum (frames_of sid fs)) by (apply IH; intros f Hf; apply H; right; exact Hf).
+  destruct (f_sid x =? sid); cbn [len_sum snd]; lia.
+Qed.
+
+Lemma count_send_nonneg : forall sid evs, 0 <= count_send sid evs.
+Proof.
+  intros sid evs. induction evs as [|e evs IH]; cbn [count_send]; [lia|].
+  destruct e; try exact IH. destruct (sid0 =? sid); lia.
+Qed.
+
+Section Progress.
+Variable g : cfg.
+Hypothesis Hchunk : 0 < g_chunk g.
+Hypothesis Hwk : g_wakes g = true \/ g_side g = Server.
+
+(* with exact accounting, enough credit on both levels and the broadcast in place, one iteration of the sender
+   moves min(remaining, 16384) bytes at least *)
+Lemma send_progress : forall c G S (B : Prop) fs sid,
+  Inv g c G S B fs -> B -> sl_open (S sid) = true ->
+  sl_body (S sid) <= gl_init G + sl_incs (S sid) -> gl_bodies G <= gl_conn G ->
+  Z.min (sl_body (S sid) - sent_on sid fs) 16384 <= sent_on sid (snd (step g c (ESend sid))).
+Proof.
+  intros c G S B fs sid I HB Hop Hcr Hcc.
+  destruct (has_s sid (c_strs c)) eqn:Eh.
+  2:{ destruct (i_closed _ _ _ _ _ _ I sid Eh) as [Hcl _]. congruence. }
+  apply has_s_true in Eh. destruct Eh as [s [Hin Hid]].
+  pose proof (find_s_nodup _ _ (i_nodup _ _ _ _ _ _ I) Hin) as Ef. rewrite Hid in Ef.
+  destruct (i_strs _ _ _ _ _ _ I s Hin) as [So [Sb [Si [Ss [Swm [Swl [Sle [Sc Sn]]]]]]]]. rewrite Hid in *.
+  destruct (i_exact _ _ _ _ _ _ I HB) as [Herr [Xc Xs]]. pose proof (Xs s Hin) as Xs1. rewrite Hid in Xs1.
+  destruct (i_init _ _ _ _ _ _ I) as [Hi1 Hi2]. destruct (i_mfs _ _ _ _ _ _ I) as [Hm1 Hm2].
+  pose proof (i_cwin _ _ _ _ _ _ I) as Hcw.
+  unfold step. rewrite step_not_peer by reflexivity. rewrite Ef.
+  destruct (s_body s - s_sent s <=? 0) eqn:Er.
+  { destruct (mem_z sid (c_wait c)); cbn [snd]; unfold sent_on at 2; cbn [frames_of len_sum]; lia. }
+  (* the windows cover what remains *)
+  assert (Hsw : s_body s - s_sent s <= s_win s) by lia.
+  assert (Hcwin : s_body s - s_sent s <= c_win c).
+  { pose proof (sum_f_gap s_sent s_body (c_strs c) s) as Hg.
+    assert (Hle : forall x, In x (c_strs c) -> s_sent x <= s_body x).
+    { intros x Hx. destruct (i_strs _ _ _ _ _ _ I x Hx) as [_ [_ [_ [Q _]]]]. lia. }
+    specialize (Hg Hle Hin). rewrite <- (i_bodies _ _ _ _ _ _ I), <- (i_total _ _ _ _ _ _ I) in Hg. lia. }
+  assert (Hav : s_body s - s_sent s <= flow_available (s_win s) (c_win c)).
+  { unfold flow_available. destruct (c_win c <? s_win s); lia. }
+  destruct (mem_z sid (c_wait c)) eqn:Ew.
+  { exfalso. apply mem_z_true in Ew. rewrite <- Hid in Ew.
+    pose proof (i_parked _ _ _ _ _ _ I Hwk Herr s Hin Ew). lia. }
+  replace (flow_available (s_win s) (c_win c) <=? 0) with false by lia.
+  pose proof (flow_available_le (s_win s) (c_win c)) as Hav2.
+  rewrite (wrap32_id (c_mfs c)) by (unfold i32_min, i32_max; lia).
+  set (t := if c_mfs c <? (if s_body s - s_sent s <? flow_available (s_win s) (c_win c) then s_body s - s_sent s else flow_available (s_win s) (c_win c))
+            then c_mfs c else (if s_body s - s_sent s <? flow_available (s_win s) (c_win c) then s_body s - s_sent s else flow_available (s_win s) (c_win c))).
+  assert (Ht : 0 < t /\ t <= flow_available (s_win s) (c_win c) /\ t <= s_body s - s_sent s /\ Z.min (s_body s - s_sent s) 16384 <= t).
+  { subst t. destruct (s_body s - s_sent s <? flow_available (s_win s) (c_win c)) eqn:E1;
+      match goal with |- context [c_mfs c <? ?x] => destruct (c_mfs c <? x) eqn:E2 end; lia. }
+  replace (t <=? 0) with false by lia.
+  unfold flow_take. replace (flow_available (s_win s) (c_win c) <? t) with false by lia. cbn [snd].
+  destruct (chunks_spec (g_chunk g) sid (s_sent s) t Hchunk ltac:(lia)) as [_ [_ [_ K4]]].
+  unfold sent_on at 2. rewrite K4. unfold sent_on in Sn. unfold sent_on. lia.
+Qed.
+End Progress.
+
+Lemma sstep_open : forall sid l e, sl_open l = true ->
+  sl_open (sstep sid l e) = true /\ sl_body (sstep sid l e) = sl_body l.
+Proof.
+  intros sid l e H. destruct e; cbn [sstep]; try (split; [exact H | reflexivity]).
+  - rewrite H. rewrite andb_false_r. split; [exact H | reflexivity].
+  - rewrite H. destruct ((sid0 =? sid) && true); csimpl; split; auto.
+Qed.
+
+Lemma sledger_open_app : forall sid a b, sl_open (sledger sid a) = true ->
+  sl_open (sledger sid (a ++ b)) = true /\ sl_body (sledger sid (a ++ b)) = sl_body (sledger sid a).
+Proof.
+  intros sid a b. revert a. induction b as [|e b IH]; intros a H.
+  - rewrite app_nil_r. split; [exact H | reflexivity].
+  - replace (a ++ e :: b) with ((a ++ [e]) ++ b) by (rewrite <- app_assoc; reflexivity).
+    assert (H1 : sl_open (sledger sid (a ++ [e])) = true /\ sl_body (sledger sid (a ++ [e])) = sl_body (sledger sid a)).
+    { rewrite sledger_snoc. apply sstep_open. exact H. }
+    destruct (IH (a ++ [e]) (proj1 H1)) as [I1 I2]. split; [exact I1|]. rewrite I2. exact (proj2 H1).
+Qed.
+
+Section Liveness.
+Variable g : cfg.
+Hypothesis Hchunk : 0 < g_chunk g.
+Hypothesis Hwk : g_wakes g = true \/ g_side g = Server.
+Variables cw i0 m0 : Z.
+Hypothesis Hcw : 0 <= cw <= i32_max.
+Hypothesis Hi0 : 0 <= i0 <= i32_max.
+Hypothesis Hm0 : 16384 <= m0 <= 16777215.
+Let c0 := conn_new cw i0 m0.
+
+Lemma tail_progress : forall sid body tail pre,
+  Forall ev_valid (pre ++ tail) -> bounded cw i0 m0 (pre ++ tail) ->
+  sl_open (sledger sid pre) = true -> sl_body (sledger sid pre) = body ->
+  (forall p q, tail = p ++ q ->
+     body <= stream_credit cw i0 m0 sid (pre ++ p) /\
+     gl_bodies (gledger cw i0 m0 (pre ++ p)) <= conn_credit cw i0 m0 (pre ++ p)) ->
+  Z.min body (sent_on sid (snd (run g c0 pre)) + 16384 * count_send sid tail)
+    <= sent_on sid (snd (run g c0 (pre ++ tail))).
+Proof.
+  intros sid body tail. induction tail as [|e t IH]; intros pre Hv Hb Hop Hbd Hcr.
+  - rewrite app_nil_r. cbn [count_send]. lia.
+  - replace (pre ++ e :: t) with ((pre ++ [e]) ++ t) in * by (rewrite <- app_assoc; reflexivity).
+    destruct (sledger_open_app sid pre [e] Hop) as [Hop' Hbd'].
+    assert (Hcr' : forall p q, t = p ++ q ->
+       body <= stream_credit cw i0 m0 sid ((pre ++ [e]) ++ p) /\
+       gl_bodies (gledger cw i0 m0 ((pre ++ [e]) ++ p)) <= conn_credit cw i0 m0 ((pre ++ [e]) ++ p)).
+    { intros p q E. rewrite <- app_assoc. apply (Hcr (e :: p) q). rewrite E. reflexivity. }
+    specialize (IH (pre ++ [e]) Hv Hb Hop' (eq_trans Hbd' Hbd) Hcr').
+    (* the step e from the state after pre *)
+    assert (Hv1 : Forall ev_valid pre) by (apply Forall_app in Hv; destruct Hv as [Hv _]; apply Forall_app in Hv; tauto).
+    assert (Hb1 : bounded cw i0 m0 pre) by (apply (bounded_prefix cw i0 m0 pre ([e] ++ t)); rewrite app_assoc; exact Hb).
+    pose proof (inv_run g cw i0 m0 Hchunk Hcw Hi0 Hm0 pre Hv1) as I1.
+    destruct (bounded_effective g cw i0 m0 Hchunk Hcw Hi0 Hm0 pre Hv1 Hb1) as [Eeff _].
+    fold c0 in I1, Eeff. rewrite Eeff in I1.
+    rewrite (run_app g pre [e]) in IH. cbn [snd run] in IH. rewrite app_nil_r in IH.
+    rewrite sent_on_app in IH.
+    assert (Hnn : 0 <= sent_on sid (snd (step g (fst (run g c0 pre)) e))).
+    { apply sent_on_nonneg. intros f Hf. destruct (step_emit g Hchunk _ _ _ _ _ e f I1 Hf) as [_ [Hl _]]. lia. }
+    destruct e as [s0 b0 | s0 inc | inc | v | v | s0 |]; cbn [count_send]; try lia.
+    destruct (s0 =? sid) eqn:Es; [|lia]. apply Z.eqb_eq in Es. subst s0.
+    destruct (Hcr [] (ESend sid :: t) eq_refl) as [C1 C2]. rewrite app_nil_r in C1, C2.
+    pose proof (send_progress g Hchunk Hwk _ _ _ _ _ sid I1 Hb1 Hop) as Hp.
+    cbn beta in Hp. rewrite Hbd in Hp. unfold stream_credit in C1. unfold conn_credit in C2. specialize (Hp C1 C2).
+    pose proof (count_send_nonneg sid t). lia.
+Qed.
+
+Theorem flow_liveness_general_at : forall pre tail sid body,
+  Forall ev_valid (pre ++ tail) -> bounded cw i0 m0 (pre ++ tail) ->
+  sl_open (sledger sid pre) = true -> sl_body (sledger sid pre) = body ->
+  (forall p q, tail = p ++ q ->
+     body <= stream_credit cw i0 m0 sid (pre ++ p) /\
+     gl_bodies (gledger cw i0 m0 (pre ++ p)) <= conn_credit cw i0 m0 (pre ++ p)) ->
+  body / 16384 + 1 <= count_send sid tail ->
+  delivers body (frames_of sid (snd (run g c0 (pre ++ tail)))).
+Proof.
+  intros pre tail sid body Hv Hb Hop Hbd Hcr Hk.
+  pose proof (tail_progress sid body tail pre Hv Hb Hop Hbd Hcr) as Hp.
+  pose proof (inv_run g cw i0 m0 Hchunk Hcw Hi0 Hm0 (pre ++ tail) Hv) as I.
+  destruct (bounded_effective g cw i0 m0 Hchunk Hcw Hi0 Hm0 (pre ++ tail) Hv Hb) as [Eeff _].
+  fold c0 in I, Eeff. rewrite Eeff in I.
+  destruct (sledger_open_app sid pre tail Hop) as [Hop' Hbd'].
+  destruct (has_s sid (c_strs (fst (run g c0 (pre ++ tail))))) eqn:Eh.
+  2:{ destruct (i_closed _ _ _ _ _ _ I sid Eh) as [Hcl _]. congruence. }
+  apply has_s_true in Eh. destruct Eh as [s [Hin Hid]].
+  destruct (i_strs _ _ _ _ _ _ I s Hin) as [So [Sb [Si [Ss [Swm [Swl [Sle [Sc Sn]]]]]]]]. rewrite Hid in *.
+  assert (H0 : 0 <= sent_on sid (snd (run g c0 pre))).
+  { assert (Hv1 : Forall ev_valid pre) by (apply Forall_app in Hv; tauto).
+    pose proof (flow_safety_run g cw i0 m0 Hchunk Hcw Hi0 Hm0 (pre ++ [EWake]) ltac:(apply Forall_app; split; [exact Hv1 | constructor; [exact Logic.I | constructor]]) pre EWake [] eq_refl) as Hs.
+    cbn zeta in Hs. destruct Hs as [_ [_ [_ Hc]]]. specialize (Hc sid).
+    unfold step in Hc. rewrite step_not_peer in Hc by reflexivity. cbn [snd] in Hc. rewrite app_nil_r in Hc.
+    fold c0 in Hc. exact (len_sum_nonneg _ _ Hc). }
+  assert (Hbody : 0 <= body) by lia.
+  assert (Hbig : body < 16384 * count_send sid tail).
+  { pose proof (Z.div_mod body 16384 ltac:(lia)). pose proof (Z.mod_pos_bound body 16384 ltac:(lia)). nia. }
+  split; [exact Sc|]. unfold sent_on in *. lia.
+Qed.
+End Liveness.
+
+(* ================================================================== the theorems, closed *)
+Theorem flow_safety : forall g cw i0 m0 evs,
+  0 < g_chunk g -> 0 <= cw <= i32_max -> 0 <= i0 <= i32_max -> 16384 <= m0 <= 16777215 ->
+  Forall ev_valid evs ->
+  forall pre e post, evs = pre ++ e :: post ->
+    let c0 := conn_new cw i0 m0 in
+    let c1 := fst (run g c0 pre) in
+    let f1 := snd (run g c0 pre) in
+    let c2 := fst (step g c1 e) in
+    let f2 := snd (step g c1 e) in
+    let handled := effective g c0 (pre ++ [e]) in
+    c_panic c2 = false /\
+    (forall f, In f f2 ->
+        e = ESend (f_sid f) /\
+        0 < f_len f <= gl_mfs (gledger cw i0 m0 handled) /\ f_len f <= g_chunk g /\
+        sent_on (f_sid f) (f1 ++ f2) <= stream_credit cw i0 m0 (f_sid f) handled) /\
+    sent_total (f1 ++ f2) <= conn_credit cw i0 m0 handled /\
+    (forall sid, contig 0 (frames_of sid (f1 ++ f2))).
+Proof. intros g cw i0 m0 evs Hc Hcw Hi0 Hm0. exact (flow_safety_run g cw i0 m0 Hc Hcw Hi0 Hm0 evs). Qed.
+
+(* a conforming peer (credits within 2^31-1): every event is handled, no connection error, accounting exact *)
+Theorem flow_exact : forall g cw i0 m0 evs,
+  0 < g_chunk g -> 0 <= cw <= i32_max -> 0 <= i0 <= i32_max -> 16384 <= m0 <= 16777215 ->
+  Forall ev_valid evs -> bounded cw i0 m0 evs ->
+  let c := fst (run g (conn_new cw i0 m0) evs) in
+  let fs := snd (run g (conn_new cw i0 m0) evs) in
+  effective g (conn_new cw i0 m0) evs = evs /\ c_err c = false /\
+  c_win c + sent_total fs = conn_credit cw i0 m0 evs /\
+  forall s, In s (c_strs c) -> s_win s + sent_on (s_id s) fs = stream_credit cw i0 m0 (s_id s) evs.
+Proof.
+  intros g cw i0 m0 evs Hc Hcw Hi0 Hm0 Hv Hb. cbn zeta.
+  destruct (bounded_effective g cw i0 m0 Hc Hcw Hi0 Hm0 evs Hv Hb) as [E1 E2].
+  pose proof (inv_run g cw i0 m0 Hc Hcw Hi0 Hm0 evs Hv) as I. rewrite E1 in I.
+  destruct (i_exact _ _ _ _ _ _ I Hb) as [_ [X2 X3]].
+  split; [exact E1|]. split; [exact E2|]. split; [exact X2|].
+  intros s Hs. destruct (i_strs _ _ _ _ _ _ I s Hs) as [_ [_ [_ [_ [_ [_ [_ [_ Sn]]]]]]]].
+  rewrite Sn. unfold stream_credit. rewrite <- (proj1 (i_init _ _ _ _ _ _ I)). exact (X3 s Hs).
+Qed.
+
+Theorem flow_liveness_general : forall g, 0 < g_chunk g -> (g_wakes g = true \/ g_side g = Server) ->
+  liveness_general_statement g.
+Proof.
+  intros g Hc Hw cw i0 m0 pre tail sid body Hcw Hi0 Hm0. exact (flow_liveness_general_at g Hc Hw cw i0 m0 Hcw Hi0 Hm0 pre tail sid body).
+Qed.
+
+Lemma gledger_sends : forall cw i0 m0 evs sid k, gledger cw i0 m0 (evs ++ repeat (ESend sid) k) = gledger cw i0 m0 evs.
+Proof.
+  intros. unfold gledger. rewrite fold_left_app. generalize (fold_left gstep evs (mkG i0 cw m0 [] 0)).
+  induction k as [|k IH]; intros l; cbn [repeat fold_left gstep]; [reflexivity | apply IH].
+Qed.
+
+Lemma sledger_sends : forall x evs sid k, sledger x (evs ++ repeat (ESend sid) k) = sledger x evs.
+Proof.
+  intros. unfold sledger. rewrite fold_left_app. generalize (fold_left (sstep x) evs (mkSL false 0 0)).
+  induction k as [|k IH]; intros l; cbn [repeat fold_left sstep]; [reflexivity | apply IH].
+Qed.
+
+Lemma bounded_sends : forall cw i0 m0 evs sid k, bounded cw i0 m0 evs -> bounded cw i0 m0 (evs ++ repeat (ESend sid) k).
+Proof.
+  intros cw i0 m0 evs sid k. revert evs. induction k as [|k IH]; intros evs Hb.
+  - cbn [repeat]. rewrite app_nil_r. exact Hb.
+  - cbn [repeat]. replace (evs ++ ESend sid :: repeat (ESend sid) k) with ((evs ++ [ESend sid]) ++ repeat (ESend sid) k)
+      by (rewrite <- app_assoc; reflexivity).
+    apply IH. intros p q E. destruct q as [|x q] using rev_ind.
+    + rewrite app_nil_r in E. subst p. destruct (Hb evs [] (eq_sym (app_nil_r _))) as [Q1 Q2].
+      unfold conn_credit, stream_credit in *. rewrite gledger_snoc. cbn [gstep]. split; [exact Q1|].
+      intros y. rewrite sledger_snoc. cbn [sstep]. exact (Q2 y).
+    + clear IHq. rewrite app_assoc in E. apply app_inj_tail in E. destruct E as [E _]. exact (Hb p q E).
+Qed.
+
+Lemma count_send_repeat : forall sid k, count_send sid (repeat (ESend sid) k) = Z.of_nat k.
+Proof.
+  intros sid k. induction k as [|k IH]; cbn [repeat count_send]; [reflexivity|]. rewrite Z.eqb_refl, IH. lia.
+Qed.
+
+Theorem flow_liveness : forall g, 0 < g_chunk g -> (g_wakes g = true \/ g_side g = Server) -> liveness_statement g.
+Proof.
+  intros g Hc Hw cw i0 m0 evs sid body k Hcw Hi0 Hm0 Hv Hb Hop Hbd Hcr Hcc Hk.
+  apply (flow_liveness_general g Hc Hw cw i0 m0 evs (repeat (ESend sid) k) sid body); try assumption.
+  - apply Forall_app. split; [exact Hv|]. apply Forall_forall. intros x Hx. apply repeat_spec in Hx. subst x. exact I.
+  - apply bounded_sends. exact Hb.
+  - intros p q E.
+    assert (Hp : p = repeat (ESend sid) (length p)).
+    { apply Forall_eq_repeat. apply Forall_forall. intros x Hx. symmetry. apply (repeat_spec k). rewrite E. apply in_or_app. left. exact Hx. }
+    rewrite Hp. unfold stream_credit, conn_credit. rewrite gledger_sends, sledger_sends. split; assumption.
+  - rewrite count_send_repeat. exact Hk.
+Qed.
+
+Lemma refute_schedule_bounded : bounded 65535 65535 16384 [ESetInit 0; EOpen 1 100; ESend 1; ESetInit 65535].
+Proof.
+  intros p q E.
+      assert (Hp : p = [] \/ p = [ESetInit 0] \/ p = [ESetInit 0; EOpen 1 100] \/ p = [ESetInit 0; EOpen 1 100; ESend 1] \/
+                   p = [ESetInit 0; EOpen 1 100; ESend 1; ESetInit 65535]).
+      { destruct p as [|a p]; [tauto|]. injection E as Ea E. subst a.
+        destruct p as [|a p]; [tauto|]. injection E as Ea E. subst a.
+        destruct p as [|a p]; [tauto|]. injection E as Ea E. subst a.
+        destruct p as [|a p]; [tauto|]. injection E as Ea E. subst a.
+        destruct p as [|a p]; [tauto|]. discriminate. }
+      unfold conn_credit, stream_credit, gledger, sledger, i32_max.
+      destruct Hp as [Hp | [Hp | [Hp | [Hp | Hp]]]]; subst p;
+        (split; [vm_compute; discriminate|]); intros sid;
+        cbn [fold_left gstep sstep gl_init gl_conn gl_mfs gl_ids gl_bodies mem_z existsb orb];
+        destruct (1 =? sid); cbn [andb negb sl_open sl_incs sl_body]; lia.
+Qed.
+
+(* without the broadcast in the client's SETTINGS processing a sender parked on a zero window is never woken
+   by a SETTINGS frame that raises the initial window: the claim fails *)
+Theorem flow_liveness_refuted_without_wake : forall ch, 0 < ch -> ~ liveness_statement (mkCfg Client false ch).
+Proof.
+  intros ch Hch H.
+  specialize (H 65535 65535 16384 [ESetInit 0; EOpen 1 100; ESend 1; ESetInit 65535] 1 100 1%nat).
+  assert (Hd : delivers 100 (frames_of 1 (snd (run (mkCfg Client false ch) (conn_new 65535 65535 16384)
+                 ([ESetInit 0; EOpen 1 100; ESend 1; ESetInit 65535] ++ repeat (ESend 1) 1))))).
+  { apply H; unfold i32_max; try lia.
+    - repeat constructor; cbn [ev_valid]; unfold i32_max; lia.
+    - exact refute_schedule_bounded.
+    - reflexivity.
+    - reflexivity.
+    - vm_compute. discriminate.
+    - vm_compute. discriminate. }
+  destruct Hd as [_ Hd]. vm_compute in Hd. discriminate.
+Qed.
